@@ -178,10 +178,13 @@ def cone(vfile):
         except OSError:
             continue
         src = re.sub(r"\(\*.*?\*\)", "", src, flags=re.S)
-        for m in re.finditer(r"From\s+RP2V\s+Require\s+(?:Import|Export)\s+((?:[A-Za-z_][A-Za-z0-9_.]*\s*)+)\.", src):
-            for mod in m.group(1).split():
-                mod = mod.rstrip(".")
-                todo.append("theories/" + mod.replace(".", "/") + ".v")
+        for m in re.finditer(r"From\s+RP2V\s+Require\s+(?:Import|Export)\s", src):
+            rest = src[m.end():]
+            end = re.search(r"\.(\s|$)", rest)
+            body = rest[:end.start()] if end else rest[:2000]
+            for mod in body.split():
+                if re.fullmatch(r"[A-Za-z_][A-Za-z0-9_.]*", mod):
+                    todo.append("theories/" + mod.replace(".", "/") + ".v")
     return sorted(seen)
 
 
